@@ -80,6 +80,98 @@ func (r *Registry) decodeRaw(key string, block bool, in []byte) error {
 	return co.ReadFrom(rd)
 }
 
+// decodeWatched runs one decode under a watchdog; false = it did not return in time (the
+// decoding goroutine is left behind, spinning). A panic of the decoder is re-raised in the
+// calling goroutine.
+func (r *Registry) decodeWatched(key string, block bool, in []byte, limit time.Duration) bool {
+	type outcome struct{ p any }
+	done := make(chan outcome, 1)
+	go func() {
+		defer func() { done <- outcome{recover()} }()
+		_ = r.decodeRaw(key, block, in)
+	}()
+	select {
+	case o := <-done:
+		if o.p != nil {
+			panic(o.p)
+		}
+		return true
+	case <-time.After(limit):
+		return false
+	}
+}
+
+// NegativeLengths: pinned family of small negative lengths/counts (-1..-12 in every integer
+// width) on SimpleList / LIST / MAP / STRING4 fields at a tag the reader has to skip and at
+// tag 0: a skipper that moves by a negative amount can land on the field's own head again.
+func (r *Registry) NegativeLengths() map[string]C05Case {
+	out := map[string]C05Case{}
+	keys := r.Keys
+	if len(keys) > 3 {
+		keys = []string{keys[0], keys[len(keys)/2], keys[len(keys)-1]}
+	}
+	for _, key := range keys {
+		st := r.Schema.Structs[key]
+		tags := []int{0}
+		// an undeclared tag below the highest declared one (skipped on the way to it)
+		hi := -1
+		for _, f := range st.Fields {
+			if f.Tag > hi {
+				hi = f.Tag
+			}
+		}
+		for t := 0; t < hi; t++ {
+			if !declared(st, t) {
+				tags = append(tags, t)
+				break
+			}
+		}
+		if hi >= 16 {
+			for t := 15; t < hi; t++ {
+				if !declared(st, t) {
+					tags = append(tags, t)
+					break
+				}
+			}
+		}
+		for _, tag := range tags {
+			for _, ty := range []int{rc.WSimpleList, rc.WList, rc.WMap, rc.WString4} {
+				for neg := 1; neg <= 12; neg++ {
+					for width := 0; width < 3; width++ {
+						var h rc.Enc
+						h.Head(ty, tag)
+						if ty == rc.WSimpleList {
+							h.Head(rc.WByte, 0)
+						}
+						v := int32(-neg)
+						switch {
+						case ty == rc.WString4:
+							if width > 0 {
+								continue
+							}
+							h.Buf = append(h.Buf, byte(v>>24), byte(v>>16), byte(v>>8), byte(v))
+						case width == 0:
+							h.Buf = append(h.Buf, 0x00, byte(v))
+						case width == 1:
+							h.Buf = append(h.Buf, 0x01, byte(v>>8), byte(v))
+						default:
+							h.Buf = append(h.Buf, 0x02, byte(v>>24), byte(v>>16), byte(v>>8), byte(v))
+						}
+						for _, block := range []bool{false, true} {
+							in := append([]byte{}, h.Buf...)
+							if block {
+								in = append(in, 0x0B)
+							}
+							out[fmt.Sprintf("%s/tag%d/ty%d/len-%d/w%d/block=%v", key, tag, ty, neg, width, block)] = C05Case{Struct: key, Block: block, Kind: "negative-length", In: in, NT: true}
+						}
+					}
+				}
+			}
+		}
+	}
+	return out
+}
+
 func (r *Registry) RunC05Case(c C05Case) *stat.Failure {
 	in := c.input()
 	return guard("C05 "+c.Struct, func() *stat.Failure {
@@ -88,7 +180,9 @@ func (r *Registry) RunC05Case(c C05Case) *stat.Failure {
 		for attempt := 0; attempt < 3; attempt++ {
 			a0 := heapAllocs()
 			t0 := time.Now()
-			_ = r.decodeRaw(c.Struct, c.Block, in)
+			if !r.decodeWatched(c.Struct, c.Block, in, 60*time.Second+time.Duration(len(in))*time.Microsecond) {
+				return stat.Failf("hang", "%s (%s, block=%v): decoding %d bytes did not terminate within %v; input head % x", c.Struct, c.Kind, c.Block, len(in), time.Since(t0).Round(time.Second), clip(in))
+			}
 			dt := time.Since(t0)
 			alloc := heapAllocs() - a0
 			if alloc < minAlloc {
@@ -225,7 +319,7 @@ func (r *Registry) drawC05(rt *rapid.T) C05Case {
 			if ty == rc.WSimpleList {
 				h.Head(rc.WByte, 0)
 			}
-			h.Int(rapid.SampledFrom([]int64{0x7fffffff, -1, -0x80000000, 0x7ffffff0, 1 << 20, 65536}).Draw(rt, "count"), 0)
+			h.Int(rapid.SampledFrom([]int64{0x7fffffff, -1, -0x80000000, 0x7ffffff0, 1 << 20, 65536, -2, -3, -4, -5, -6, -7, -8}).Draw(rt, "count"), 0)
 			h.Buf = append(h.Buf, rapid.SliceOfN(rapid.Byte(), 0, 6).Draw(rt, "body")...)
 			c.In, c.NT = h.Buf, true
 		case 4: // string4 with giant length
@@ -305,6 +399,13 @@ func (r *Registry) RunC05(t *testing.T, st *stat.Stats, quick, thorough int) {
 			st.Case([]byte("pair"+name+r.Name), true, nil, r.Name, "pinned-pair-bomb")
 		}
 		stat.Pinned(t, st, "c05-pairbombs-"+r.Name, pairs, r.RunC05Case)
+		negs := r.NegativeLengths()
+		for name, c := range negs {
+			st.Case([]byte("neg"+name+r.Name), true, func() any {
+				return map[string]any{"pinned": name, "bytes": fmt.Sprintf("% x", c.In)}
+			}, r.Name, "pinned-negative-length")
+		}
+		stat.Pinned(t, st, "c05-negative-lengths-"+r.Name, negs, r.RunC05Case)
 	}
 	stat.Check(t, st, "c05-"+r.Name, stat.N(quick, thorough), r.drawC05, func(c C05Case) *stat.Failure {
 		in := c.input()
